@@ -9,6 +9,7 @@ import (
 	"helm.sh/helm/v4/pkg/action"
 	chart "helm.sh/helm/v4/pkg/chart/v2"
 	release "helm.sh/helm/v4/pkg/release/v1"
+	"helm.sh/helm/v4/pkg/storage"
 )
 
 func init() { subs["hooks"] = corrHooks }
@@ -169,8 +170,96 @@ func corrHooks(seed uint64, n int, tier string, out string, replay string) {
 	rep := NewReport("C12", "hooks", seed, "case = history of 2-5 operations (install, upgrade, rollback, uninstall) of a chart with 0-5 hooks (ConfigMap and unstructured kinds; 1-8 events each, sometimes mentioned twice; weights negative, equal, signed, absent; every subset of the three delete policies incl. none) run through the real action package against the simulated API server with a scripted waiter; per operation one executing hook may be scripted to fail, hooks may be disabled, the resource phase may fail, an uninstall may keep the history, an upgrade or rollback may run with cleanup-on-fail; the ordered trace of hook creates / deletes / watches and resource-phase requests is compared with the Lean hook model (fed with the release's hook list), and order, one-at-a-time, gating, policy deletions, hooks-not-in-manifest are monitored on the implementation's trace with the generator's own weights; non-trivial = at least 2 operations ran hooks; distinct = hash of the history")
 	for _, id := range caseSeq("hooks", seed, n) {
 		hooksHistory(m, rep, NewRng(id.Seed, uint64(id.Index)), id.Seed, id.Index)
+		if id.Index%40 == 11 {
+			testRunCase(rep, NewRng(id.Seed, uint64(id.Index)+1<<35), id.Seed, id.Index)
+		}
 	}
 	rep.Write(out, m)
+}
+
+// testRunCase: `helm test` runs the test hooks (all, or those a name filter selects), one of them possibly
+// failing; whatever it does, the release keeps its hooks: the stored record lists the same hooks afterwards, and
+// the uninstall that follows creates the pre-delete hook before the manifest's resources go and the post-delete
+// hook after.
+func testRunCase(rep *Report, r *Rng, seed uint64, idx int) {
+	backend := Pick(r, []string{"secrets", "configmaps", "memory"})
+	w := newSimWorld(newBackend(backend))
+	defer w.close()
+	hook := func(name, ev string) string {
+		return "apiVersion: v1\nkind: ConfigMap\nmetadata:\n  name: " + name + "\n  annotations:\n    \"helm.sh/hook\": " + ev + "\ndata:\n  k: v\n"
+	}
+	c := &chart.Chart{Metadata: &chart.Metadata{APIVersion: "v2", Name: "app", Version: "0.1.0"}, Templates: []*chart.File{
+		{Name: "templates/cm.yaml", Data: []byte("apiVersion: v1\nkind: ConfigMap\nmetadata:\n  name: settings\ndata:\n  k: v\n")},
+		{Name: "templates/drain.yaml", Data: []byte(hook("drain", "pre-delete"))},
+		{Name: "templates/sweep.yaml", Data: []byte(hook("sweep", "post-delete"))},
+		{Name: "templates/tests/smoke-a.yaml", Data: []byte(hook("smoke-a", "test"))},
+		{Name: "templates/tests/smoke-b.yaml", Data: []byte(hook("smoke-b", "test"))},
+	}}
+	filter := Pick(r, []string{"", "name=smoke-a", "!name=smoke-b", "name=smoke-b", "!name=smoke-a"})
+	failing := Pick(r, []string{"", "smoke-a", "smoke-b", "smoke-a"})
+	cs := map[string]any{"scenario": "helm-test", "backend": backend, "filter": filter, "failing": failing}
+	rep.Count(cs, true)
+	in := action.NewInstall(w.cfg())
+	in.ReleaseName, in.Namespace, in.DisableOpenAPIValidation = "app", "default", true
+	if _, err := in.Run(c, map[string]any{}); err != nil {
+		rep.Issue(Issue{Kind: "monitor", Fingerprint: "C12:test-run:install-failed", What: err.Error(), Case: cs, Seed: seed, Index: idx})
+		return
+	}
+	hookNames := func() []string {
+		rel, err := storage.Init(w.inner).Last("app")
+		if err != nil {
+			return []string{"error: " + err.Error()}
+		}
+		var out []string
+		for _, h := range rel.Hooks {
+			out = append(out, h.Name)
+		}
+		sort.Strings(out)
+		return out
+	}
+	before := hookNames()
+	w.revive()
+	if failing != "" {
+		w.wplan.hookFail[failing] = "fail"
+	}
+	rt := action.NewReleaseTesting(w.cfg())
+	rt.Namespace = "default"
+	if filter != "" {
+		kv := strings.SplitN(filter, "=", 2)
+		rt.Filters[kv[0]] = []string{kv[1]}
+	}
+	var terr error
+	if p := safely(func() { _, terr = rt.Run("app") }); p != "" {
+		rep.Issue(Issue{Kind: "monitor", Fingerprint: "C20:panic:action:test", What: p, Case: cs, Seed: seed, Index: idx})
+		return
+	}
+	rep.H(fmt.Sprintf("helm-test:%s:filter=%v:err=%v", backend, filter != "", terr != nil))
+	if after := hookNames(); !jsonEqual(after, before) {
+		rep.Issue(Issue{Kind: "monitor", Fingerprint: "C12:test-run:hooks-lost", What: "after `helm test` the stored release no longer lists the hooks it had", Case: cs, Model: before, Impl: after, Seed: seed, Index: idx})
+		return
+	}
+	w.revive()
+	from := len(w.api.trace)
+	un := action.NewUninstall(w.cfg())
+	if _, err := un.Run("app"); err != nil {
+		rep.Issue(Issue{Kind: "monitor", Fingerprint: "C12:test-run:uninstall-failed", What: err.Error(), Case: cs, Seed: seed, Index: idx})
+		return
+	}
+	w.api.mu.Lock()
+	tr := append([]string{}, w.api.trace[from:]...)
+	w.api.mu.Unlock()
+	pos := func(sub string) int {
+		for i, e := range tr {
+			if strings.Contains(e, sub) {
+				return i
+			}
+		}
+		return -1
+	}
+	pre, del, post := pos("POST namespaces/default/configmaps/drain"), pos("DELETE namespaces/default/configmaps/settings"), pos("POST namespaces/default/configmaps/sweep")
+	if pre < 0 || post < 0 || del < 0 || !(pre < del && del < post) {
+		rep.Issue(Issue{Kind: "monitor", Fingerprint: "C12:test-run:delete-hooks-skipped", What: "the uninstall after `helm test` did not run pre-delete hook, resource deletion and post-delete hook in that order", Case: cs, Impl: tr, Seed: seed, Index: idx})
+	}
 }
 
 func relHooksJSON(hs []*release.Hook) []any {
